@@ -34,6 +34,13 @@ func coreOptChoices() []optChoice {
 		c.ScalarBias = 2
 		return c
 	}
+	numsNoNull := func() GenCfg {
+		c := DefaultCfg()
+		c.AllowNull = false
+		c.Nums = []float64{1, 2.5, 3, 0, 100}
+		c.ScalarBias = 3
+		return c
+	}
 	deep := func() GenCfg { return DeepCfg() }
 	deepNoNull := func() GenCfg { c := DeepCfg(); c.AllowNull = false; return c }
 	return []optChoice{
@@ -51,6 +58,11 @@ func coreOptChoices() []optChoice {
 		{OptMsetMrg, nonull, "MULTISET+MERGE"},
 		{OptKeysMrg("id"), keyedNoNull("id"), "SetKeys(id)+MERGE"},
 		{OptPrec(0.1), precNested, "Precision(0.1)"},
+		// what the command line always passes: an explicit Precision(0) behind the other options (numbers are nested
+		// inside arrays and objects so that container comparisons go through the number comparison)
+		{append(append(OptSet{}, OptMerge...), OptPrec(0)...), numsNoNull, "MERGE+Precision(0)"},
+		{OptPrec(0), numsNoNull, "Precision(0)"},
+		{append(append(OptSet{}, OptSetO...), OptPrec(0)...), numsNoNull, "SET+Precision(0)"},
 	}
 }
 
@@ -114,6 +126,13 @@ func propC01(run *Run, n int) {
 			run.Count("keyed:member-change-and-membership-change-below-a-key")
 			addC01Case(run, OptKeys("id"), "SetKeys(id)-below-key", ka, kb)
 		}
+		if r.Chance(1, 20) {
+			// SetKeys(a,b): a member holding the SAME value under both set keys next to a member holding that value under
+			// one of them only (two different identities: the key-value hashes of an identity must not be de-duplicated)
+			sa, sb := sameValueTwoKeysPair(r)
+			run.Count("keyed:same-value-under-two-set-keys")
+			addC01Case(run, OptKeys("a", "b"), "SetKeys(a,b)-same-value", sa, sb)
+		}
 		if r.Chance(1, 15) {
 			ta, tb := stableTwinPair(r)
 			run.Count("keyed:explicit-null-member-changes-next-to-a-member-lacking-the-key")
@@ -137,6 +156,39 @@ func propC01(run *Run, n int) {
 			}
 		}
 	}
+}
+
+func sameValueTwoKeysPair(r *Rng) (*Val, *Val) {
+	v := VNum(float64(1 + r.Intn(3)))
+	both := VObj("a", v.Clone(), "b", v.Clone(), "x", VNum(1))
+	one := VObj("a", v.Clone(), "x", VNum(2))
+	other := VObj("a", VNum(7), "b", VNum(8), "x", VNum(0))
+	ms := []*Val{both, one, other}
+	for i := len(ms) - 1; i > 0; i-- {
+		j := r.Intn(i + 1)
+		ms[i], ms[j] = ms[j], ms[i]
+	}
+	a := VArr(ms...)
+	var b *Val
+	switch r.Intn(4) {
+	case 0:
+		b = VArr(one.Clone(), other.Clone()) // the two-key member is removed
+	case 1:
+		b = VArr(both.Clone(), other.Clone()) // the one-key member is removed
+	case 2:
+		b = a.Clone()
+		for _, m := range b.A {
+			if m.O["b"] != nil && m.O["a"].Wire() == m.O["b"].Wire() {
+				m.O["x"] = VNum(9) // the two-key member changes
+			}
+		}
+	default:
+		b = VArr()
+	}
+	if r.Chance(1, 3) {
+		return VObj("k", a), VObj("k", b)
+	}
+	return a, b
 }
 
 func keyedUnderKeyPair(r *Rng) (*Val, *Val) {
